@@ -58,7 +58,8 @@ def _job(a):
 
 def family(what, argv):
     w = re.sub(r'/tmp/cproc-t\d+', 'TEMP', what)
-    w = re.sub(r'\d+', 'N', w)
+    m = re.match(r'(I\d): (.*)', w, re.S)
+    w = (m.group(1) + ' ' + re.sub(r'\d+', 'N', m.group(2))) if m else re.sub(r'\d+', 'N', w)
     mode = 'link' if not any(x in argv for x in ('-E', '-emit-qbe', '-S', '-c')) else 'nolink'
     return '%s [%s]' % (w, mode)
 
